@@ -521,8 +521,9 @@ class _RecordingParserTypes:
         return res
 
 
-def _ir_locations(node, path="module", out=None):
-    """(path, location) of every node of a module IR that carries a source location."""
+def _ir_locations(node, path="module", out=None, parent=None):
+    """(path, location, location of the nearest enclosing node that has one) of every node of a
+    module IR that carries a source location."""
     from compiler.util import ir_data, ir_data_utils
     if out is None:
         out = []
@@ -530,14 +531,16 @@ def _ir_locations(node, path="module", out=None):
         return out
     loc = getattr(ir_data_utils.reader(node), "source_location", None) if hasattr(node, "source_location") else None
     if loc is not None:
-        out.append((path + ":" + type(node).__name__, loc))
+        out.append((path + ":" + type(node).__name__, loc, parent))
+    if loc:
+        parent = loc
     for spec, value in ir_data_utils.get_set_fields(node):
         if spec.name != "source_location" and spec.is_dataclass:
             if spec.is_sequence:
                 for i, v in enumerate(value):
-                    _ir_locations(v, "%s.%s[%d]" % (path, spec.name, i), out)
+                    _ir_locations(v, "%s.%s[%d]" % (path, spec.name, i), out, parent)
             else:
-                _ir_locations(value, path + "." + spec.name, out)
+                _ir_locations(value, path + "." + spec.name, out, parent)
     return out
 
 
@@ -549,7 +552,8 @@ def tie_module_ir(chk, r, cases, n_files, n_ops):
     `(1, 1)` of an empty module / the falsy default) — the hypothesis of
     `C16_module_ir_locations` — and the result lies inside the file; (b) its hand-made
     `merge_source_locations` calls go to the MERGE op; (c) every location of every node of the
-    finished IR lies inside the file, start <= end, and both ends are token boundaries."""
+    finished IR lies inside the file, start <= end, both ends are token boundaries, and the
+    location lies within the location of the enclosing node (unless `is_disjoint_from_parent`)."""
     from harness.corr import C16 as base
     from compiler.front_end import tokenizer, parser, module_ir
     t = base.Tie(chk, "SPAN/MODULE_IR")
@@ -634,7 +638,7 @@ def tie_module_ir(chk, r, cases, n_files, n_ops):
                     budget -= 1
                     t.add(op, want, {"input": text[:3000], "call": "merge_source_locations(%s)" % ", ".join(str(x) for x in locs)}, spec_ok)
         if ir is not None:
-            for path, loc in _ir_locations(ir):
+            for path, loc, parent in _ir_locations(ir):
                 if not loc:
                     continue
                 stats["ir_nodes_with_location"] += 1
@@ -645,6 +649,10 @@ def tie_module_ir(chk, r, cases, n_files, n_ops):
                 if problem is None and ((loc.start.line, loc.start.column) not in bounds or
                                         (loc.end.line, loc.end.column) not in bounds):
                     problem = "an end of the location is not a token boundary"
+                # parser_types.SourceLocation: a node lies within its parent unless it says otherwise
+                if problem is None and parent and not loc.is_disjoint_from_parent and \
+                        not (parent.start <= loc.start and loc.end <= parent.end):
+                    problem = "not inside the enclosing node's location %s" % (parent,)
                 if problem is not None:
                     bad_nodes += 1
                     if bad_nodes <= 3:
@@ -653,7 +661,7 @@ def tie_module_ir(chk, r, cases, n_files, n_ops):
                                                 "expected": "every location module_ir attaches to an IR node lies inside the "
                                                             "file and runs from a token boundary to a token boundary",
                                                 "theorem_or_correspondence": "C16_module_ir_locations (hypotheses on real IR)"},
-                                      key="ir-location:" + problem.split(" outside")[0][:40])
+                                      key="ir-location:" + problem.split(" outside")[0].split(" location ")[0][:40])
     for k, v in stats["shapes"].items():
         chk.nontrivial("span-shape:" + k)
     stats["ir_nodes_with_bad_location"] = bad_nodes
